@@ -227,7 +227,8 @@ def partitions(tier):
 
 MUST_REACH = ["apdu_completed", "completed_despite_faults", "tag_command_error",
               "command_chained", "response_chained", "wtx", "apdu_after_failed_exchange", "wtx_during_response_chaining", "wtx_repeated", "ats_layout_varied"]
-BOUNDS = {"quick": "<=2 faults per conversation out of {command lost, response lost, response garbled} at each of the first 24 blocks; FSCI 0/2/3; command/response lengths around multiples of FSC-3; 1-3 consecutive APDUs; one S(WTX); FWI 4 and 14; APDU and response bytes symbolic",
+BOUNDS = {"quick": "<=2 faults per conversation out of {command lost, response lost, response garbled} at each of the first 24 blocks; FSCI 0/2/3; command/response lengths around multiples of FSC-3 (chaining both ways, three blocks each way at FWI 11); 1-3 consecutive APDUs; 1..9 consecutive S(WTX) (more than the retry budget), S(WTX) inside a chained response; FWI 4, 7, 10, 11 and 14 (retry budgets 5, 3, 1, 0); ATS with every subset of TA(1)/TB(1)/TC(1) and a card that needs 60 % of its announced frame waiting time; Type 4A and 4B; APDU and response bytes symbolic.  Absorption is judged per block: no block hit more often than the budget",
           "thorough": "<=3 faults; FSCI 0/2/3/5/8"}
 OUTSIDE = ["CID/NAD", "extended length APDUs", "more than 24 blocks per conversation", "FSD below 256"]
-ASSUMPTIONS = ["Tt4Card follows the ISO/IEC 14443-4 PICC rules (env/tags.py)", "a garbled command is ignored by the card (reader sees a time-out)"]
+ASSUMPTIONS = ["Tt4Card follows the ISO/IEC 14443-4 PICC rules (env/tags.py)", "a garbled command is ignored by the card (reader sees a time-out)",
+               "card timing: with busy_fraction set the card answers only if the reader waits at least that fraction of the announced FWT, and does not listen while busy"]
